@@ -11,6 +11,7 @@ pub mod c11;
 pub mod c12;
 pub mod c13;
 pub mod c14;
+pub mod c15;
 
 pub fn run(cfg: &Cfg) -> Option<Report> {
     Some(match cfg.prop.as_str() {
@@ -23,6 +24,7 @@ pub fn run(cfg: &Cfg) -> Option<Report> {
         "C12" => c12::run(cfg),
         "C13" => c13::run(cfg),
         "C14" => c14::run(cfg),
+        "C15" => c15::run(cfg),
         _ => return None,
     })
 }
@@ -38,6 +40,7 @@ pub fn replay(cfg: &Cfg, case: &Value) -> Option<Report> {
         "C12" => c12::replay(cfg, case),
         "C13" => c13::replay(cfg, case),
         "C14" => c14::replay(cfg, case),
+        "C15" => c15::replay(cfg, case),
         _ => return None,
     })
 }
